@@ -194,7 +194,7 @@ func unary(c *check, server bool) {
 					if opt&2 != 0 {
 						wantCode = codes.Unavailable
 						opts = append(opts, gl.WithLimitExceededResponseClassifier(func(ctx context.Context, method string, req interface{}, l core.Limiter) (interface{}, codes.Code, error) {
-							return "busy", codes.Unavailable, errors.New("busy")
+							return "busy", codes.Unavailable, status.Error(codes.DeadlineExceeded, "busy") // the code is the classifier's second result, whatever the error carries
 						}))
 					}
 					if naming == 2 {
@@ -364,10 +364,10 @@ func streams(c *check, maxLen int) {
 				recvCode, sendCode = codes.Unavailable, codes.Aborted
 				opts = append(opts,
 					gl.WithStreamRecvLimitExceededResponseClassifier(func(ctx context.Context, method string, req interface{}, l core.Limiter) (interface{}, codes.Code, error) {
-						return nil, codes.Unavailable, errors.New("recv busy")
+						return nil, codes.Unavailable, status.Error(codes.DeadlineExceeded, "recv busy")
 					}),
 					gl.WithStreamSendLimitExceededResponseClassifier(func(ctx context.Context, method string, req interface{}, l core.Limiter) (interface{}, codes.Code, error) {
-						return nil, codes.Aborted, errors.New("send busy")
+						return nil, codes.Aborted, fmt.Errorf("send busy: %w", status.Error(codes.NotFound, "inner"))
 					}))
 			}
 			if naming == 2 {
